@@ -131,6 +131,9 @@ func txTouched(ctx context.Context, s *Session, txids []bitcoin.Hash32) int {
 }
 
 func runC13Session(ctx context.Context, run *common.Run, st *c13Stats, idx int) {
+	if run.Saturated() {
+		return
+	}
 	rng := common.Rng(run.Seed, int64(130000+idx))
 	verifyOnly := rng.Intn(4) == 0
 	withTx := rng.Intn(3) != 0 && !verifyOnly
@@ -159,7 +162,7 @@ func runC13Session(ctx context.Context, run *common.Run, st *c13Stats, idx int) 
 			}
 		}
 	}
-	scenario := []string{"flood-then-verify", "flood-then-fail-verify", "verack-first", "repeated-version", "stall-no-verack", "stall-no-version"}[rng.Intn(6)]
+	scenario := []string{"flood-then-verify", "flood-then-fail-verify", "verack-first", "repeated-version", "stall-no-verack", "stall-no-version", "repeated-version-no-verack"}[rng.Intn(7)]
 	w := map[string]interface{}{"kind": "pre-verification-session", "scenario": scenario, "verify_only": verifyOnly, "with_tx_manager": withTx}
 	run.Eval(1)
 	defer func() {
@@ -170,6 +173,29 @@ func runC13Session(ctx context.Context, run *common.Run, st *c13Stats, idx int) 
 		run.DistinctStr(scenario + fmt.Sprint(verifyOnly, withTx) + strings.Join(kinds, ","))
 	}()
 
+	if scenario == "repeated-version-no-verack" {
+		// the version message repeated, never a verack: the handshake is not complete, so no
+		// verification may start, and a correct verification reply must not be honoured
+		for i := 0; i < 2+rng.Intn(3); i++ {
+			s.Peer.Send("version", VersionPayload(int32(i)))
+			kinds = append(kinds, "version")
+			flood(rng.Intn(2), "between")
+		}
+		atomic.AddInt64(&st.stalled, 1)
+		if i, _ := s.Peer.WaitCmd(0, "getheaders", 1200*time.Millisecond); i >= 0 {
+			run.Violate(common.Violation{Clause: "handshake-needs-version-and-verack", Signature: "verification-requested-without-verack",
+				Detail: "the node sent its verification getheaders although the peer never sent a verack", Witness: w})
+		}
+		s.Peer.Send("headers", HeadersPayload([]*wire.BlockHeader{BSVSplitHeader}))
+		kinds = append(kinds, "correct-verification-reply")
+		flood(1+rng.Intn(5), "after-reply")
+		s.PingPong(rng.Uint64(), 2*time.Second)
+		checkUntouched(run, s, scenario, w, kinds)
+		if s.Node.Verified() || s.Node.IsReady() {
+			run.Violate(common.Violation{Clause: "not-verified-without-handshake", Signature: "verified-without-verack", Witness: w})
+		}
+		return
+	}
 	switch scenario {
 	case "stall-no-version", "stall-no-verack":
 		flood(rng.Intn(8), "pre-version")
@@ -433,6 +459,9 @@ func C03Peer(ctx context.Context, run *common.Run, tier string) {
 // ---- manager level: unverified peers are never selected ----
 
 func runC13Manager(ctx context.Context, run *common.Run, st *c13Stats, idx int) {
+	if run.Saturated() {
+		return
+	}
 	rng := common.Rng(run.Seed, int64(135000+idx))
 	repo := newGenesisRepo()
 	spyH := &SpyHeaders{Repository: repo}
